@@ -28,6 +28,7 @@ func NewScheduler(r runner.Runner) *Scheduler {
 		pause:      50 * time.Millisecond,
 		taskRunner: r,
 	}
+	verifInit(s)
 
 	return s
 }
@@ -48,6 +49,7 @@ func (s *Scheduler) Schedule(g *scheduler.ExecutionGraph) error {
 	)
 
 	for !s.isDone(g) {
+		verifLoop(s)
 		if atomic.LoadInt32(&s.cancelled) == 1 {
 			break
 		}
@@ -112,6 +114,7 @@ func (s *Scheduler) Schedule(g *scheduler.ExecutionGraph) error {
 
 		time.Sleep(s.pause)
 	}
+	verifLoopExit(s)
 
 	wg.Wait()
 
